@@ -396,13 +396,13 @@ fn trunc<T: std::fmt::Debug>(t: &T) -> String {
 }
 
 pub fn streams(ctx: &Ctx) -> Report {
-    let n = ctx.n(6_000, 1_000_000);
+    let n = ctx.n(100_000, 100_000_000);
     par_cases(ctx, "streams", n, ctx.secs(30, 600), |i, rng, rep| run_case(i, rng, rep, false))
 }
 
 /// search(): exactly the entries in order, referral URIs merged into refs, intermediates dropped.
 pub fn search_collect(ctx: &Ctx) -> Report {
-    let n = ctx.n(3_000, 300_000);
+    let n = ctx.n(60_000, 50_000_000);
     par_cases(ctx, "search_collect", n, ctx.secs(20, 300), |i, rng, rep| {
         let mut srng = rng.fork();
         let spec = gen::gen_search(rng, i);
